@@ -279,3 +279,52 @@ INTRINSICS = {
     "(*golang.org/x/sync/errgroup.Group).Wait": eg_wait,
     "context.Background": lambda ex, args, ins: (None,),
 }
+
+
+# ---------------------------------------------------------------- join analysis (adversarial lazy schedule)
+def join_obligations(ex, until_mark="returned", spawner=0):
+    """Obligations expressing: when the spawner passes the mark, every goroutine it spawned has finished.
+    Decided on the recorded happens-before structure instead of enumerating schedules:
+      (1) inside each task the WaitGroup.Done is its last action (after every dynamic call / send),
+      (2) the spawner waits (Wait) after the last spawn and before the mark,
+      (3) the Adds executed by the spawner before that Wait equal the number of spawned tasks that signal
+          Done - fewer lets Wait return early, more blocks forever."""
+    from .exec import Obligation
+    evs = ex.events
+    mark = None
+    for e in evs:
+        if e["kind"] == "mark" and e.get("label") == until_mark and e["task"] == spawner:
+            mark = e["seq"]
+            break
+    obs = []
+    end = mark if mark is not None else len(evs)
+    spawns = [e for e in evs[:end] if e["kind"] == "spawn" and e["task"] == spawner]
+    if not spawns:
+        return obs
+    waits = [e for e in evs[:end] if e["kind"] == "wg_wait" and e["task"] == spawner and e["seq"] > spawns[-1]["seq"]]
+    if not waits:
+        obs.append(Obligation("join: spawner performs WaitGroup.Wait after the last spawn and before returning", True, "assert"))
+        return obs
+    w = waits[-1]
+    wg = w["wg"]
+    n_tasks = 0
+    for s in spawns:
+        tevs = [e for e in evs if e["task"] == s["child"]]
+        dones = [e for e in tevs if e["kind"] == "wg_done" and e["wg"] == wg]
+        if not dones:
+            obs.append(Obligation("join: goroutine spawned at %s signals Done on the awaited WaitGroup" % s.get("pos", ""), s["guard"], "assert"))
+            continue
+        d = dones[-1]
+        later = [e for e in tevs if e["seq"] > d["seq"] and e["kind"] in ("callv", "send", "spawn")]
+        obs.append(Obligation("join: Done is the last action of the goroutine spawned at %s" % s.get("pos", ""),
+                              s["guard"] if later else False, "assert"))
+        one = ex.iops.ite(s["guard"], 1, 0, 64, True)
+        n_tasks = ex.iops.binop("+", n_tasks, one, 64, True) if not (n_tasks == 0 and not is_term(one)) or True else one
+    adds = 0
+    for e in evs[:w["seq"]]:
+        if e["kind"] == "wg_add" and e["wg"] == wg and e["task"] == spawner:
+            term = ex.iops.ite(e["guard"], e["n"], 0, 64, True)
+            adds = ex.iops.binop("+", adds, term, 64, True)
+    ne = ex.iops.binop("!=", adds, n_tasks, 64, True)
+    obs.append(Obligation("join: Adds by the spawner before Wait equal the number of goroutines to await", b_and(w["guard"], ne) if ne is not False else False, "assert"))
+    return obs
